@@ -7,7 +7,7 @@
 (*         one real Response finalised with get_wsgi_response, iterated `plan` chunks, closed *)
 (* s = `type(value) is str`.  Verdicts come only from the clauses of the property statement   *)
 (* (Response!FinClause, StoredClean, AttemptsDirty); everything else is model drift.          *)
-EXTENDS Response, TLC, Json, IOUtils
+EXTENDS Shape, TLC, Json, IOUtils
 
 Lines == ndJsonDeserialize(IOEnv.TRACE_FILE)
 
@@ -33,11 +33,47 @@ FinDriftAll(ln) ==
   ELSE IF ln.out.exc = "" /\ ~ln.out.allbytes THEN "chunk-not-bytes"
   ELSE FinDrift(ln.inp, ln.out)
 
+\* ---- shape : [init: [kind, items, pt], hist: <<[o, k, v, items, b, exc]>>, method, code, ncb, out, its]
+\*      a history of body operations on one real Response, then get_wsgi_response / iterate / close
+ShapeDrift(ln) ==
+  LET r == RunHist(InitState(ln.init), ln.hist, 1) IN
+  IF r.ood THEN "ok"
+  ELSE IF r.bad > 0 THEN "shape-exception"
+  ELSE IF ln.out.exc # "" THEN "ok"
+  ELSE LET f == FinalizeS(r.s, ln.method, ln.code, ln.ncb)
+           cls == ValuesNamed(ln.out.headers, CLN)
+       IN IF f.body # ln.out.body THEN "shape-body"
+          ELSE IF cls # (IF f.cl >= 0 THEN <<DecOf(f.cl)>> ELSE <<>>) THEN "shape-length"
+          ELSE IF f.closes # <<ln.its[1].closes, ln.its[2].closes>> THEN "shape-closes"
+          ELSE IF f.raw # ln.out.raw THEN "shape-raw"
+          ELSE "ok"
+
+\* ---- exc : [cls, via, method, hb: header-bound argument texts, twin: length of the GET body of the same
+\*      exception, out]  an HTTPException rendered through get_response / __call__
+ExcClause(ln) ==
+  LET out == ln.out
+      dirty == \E k \in 1..Len(ln.hb) : HasCRLF(ln.hb[k])
+      cls == ValuesNamed(out.headers, CLN)
+      locs == ValuesNamed(out.headers, LOCN)
+  IN IF out.exc # "" THEN (IF dirty /\ out.exc = "ValueError" THEN "ok" ELSE "ExcRaised")
+     ELSE IF ~Native(out.headers) THEN "ExcHeaderValueNative"
+     ELSE IF \E k \in 1..Len(out.headers) : HasCRLF(out.headers[k].v) THEN "ExcHeaderValueCRLF"
+     ELSE IF ln.method = "HEAD" /\ out.body # <<>> THEN "ExcNoBodyForHead"
+     ELSE IF \E k \in 1..Len(cls) : cls[k] # DecOf(IF ln.method = "HEAD" THEN ln.twin ELSE Len(out.body)) THEN "ExcContentLength"
+     ELSE IF \E k \in 1..Len(locs) : ~VisibleAscii(locs[k]) THEN "ExcLocationAscii"
+     ELSE IF \E k \in 1..Len(out.cb) : out.cb[k] # 1 THEN "ExcCallbacksOnce"
+     ELSE "ok"
+ExcDrift(ln) == IF ln.out.exc = "" /\ ~IsPrefixOf(DecOf(ln.code), ln.out.status) THEN "exc-status" ELSE "ok"
+
 Verdict(ln) == CASE ln.op = "hdr" -> HdrClause(ln)
                  [] ln.op = "fin" -> FinClause(ln.inp, ln.out, Native(ln.out.headers))
+                 [] ln.op = "shape" -> ShapeClause(ln.method, ln.code, ln.ncb, ln.out, ln.its, Native(ln.out.headers))
+                 [] ln.op = "exc" -> ExcClause(ln)
                  [] OTHER -> "ok"
 Drift(ln) == CASE ln.op = "hdr" -> HdrDrift(ln)
                [] ln.op = "fin" -> FinDriftAll(ln)
+               [] ln.op = "shape" -> ShapeDrift(ln)
+               [] ln.op = "exc" -> ExcDrift(ln)
                [] OTHER -> "ok"
 
 Init == l = 1
